@@ -984,6 +984,19 @@ fn build(kind: usize, ctx: usize, valid: bool) -> Option<String> {
     Some(s)
 }
 
+/// the ill-typed programs of the injection table on their own (C07 uses them as rejected inputs)
+pub fn violation_sources() -> Vec<(String, String)> {
+    let mut out = Vec::new();
+    for kind in 0..VIOLATIONS.len() {
+        for ctx in [0usize, 3] {
+            if let Some(bad) = build(kind, ctx, false) {
+                out.push((VIOLATIONS[kind].0.to_string(), format!("{}{}", PRELUDE, bad)));
+            }
+        }
+    }
+    out
+}
+
 fn check_injection(base: &str, kind: usize, ctx: usize, placement: u64) -> Verdict {
     let name = VIOLATIONS[kind].0;
     let (Some(bad), Some(good)) = (build(kind, ctx, false), build(kind, ctx, true)) else { return Verdict::Skip("bad table entry".into()) };
